@@ -52,6 +52,19 @@ def programs(tier):
     return progs
 
 
+def jump_targets(text):
+    """line numbers the emitted text jumps to (GOTO / GOSUB / THEN n / ELSE n / ON .. lists), outside strings and comments"""
+    out = set()
+    for ln in text.split("\n"):
+        code = re.sub(r'"[^"]*"', '""', ln)
+        code = re.sub(r"\(\*.*", "", code)
+        for m in re.finditer(r"(?i)\b(?:GOTO|GOSUB)\s+(\d+(?:\s*,\s*\d+)*)", code):
+            out.update(int(x) for x in re.findall(r"\d+", m.group(1)))
+        for m in re.finditer(r"(?i)\b(?:THEN|ELSE)\s+(\d+)\b", code):
+            out.add(int(m.group(1)))
+    return out
+
+
 def labels_of(text):
     return [int(m.group(1)) for m in (re.match(r"\s*(\d+)(\s|$)", ln) for ln in text.split("\n")) if m]
 
@@ -214,6 +227,9 @@ def check_one(src):
     else:
         if strip_labels(o[1]) != strip_labels(B):
             sig("filter:text", "statements differ beyond labels")
+        dangling = sorted(jump_targets(o[1]) - set(labels_of(o[1])))
+        if dangling and not (jump_targets(B) - set(labels_of(B))):
+            sig("filter:dangling-jump", f"with filtering on the output jumps to {dangling}, which are no longer labels")
         lab_b, lab_o = set(labels_of(B)), set(labels_of(o[1]))
         if lab_o - lab_b:
             sig("filter:label-appears", f"with filtering on the output has labels {sorted(lab_o - lab_b)} that the unfiltered output lacks")
